@@ -23,6 +23,11 @@ int main(void)
   econf_err r = econf_newKeyFile(&slot, nondet_char(), nondet_char());
   VACUITY(r == ECONF_SUCCESS, "construction reachable");
 #endif
+#ifdef PART_NEWINI
+  econf_file *slot = NULL;
+  econf_err r = econf_newIniFile(&slot);
+  VACUITY(r == ECONF_SUCCESS, "construction reachable");
+#endif
 #ifdef PART_GROUPLIST
   econf_file *kf = malloc(sizeof(econf_file)); __CPROVER_assume(kf != NULL);
   kf->group_count = nondet_int();
